@@ -164,3 +164,208 @@ def exec_sftp(case):
     dg = hashlib.sha256((R.digest() + repr([v["clause"] for v in viol]) + repr(sorted(probes.items()))).encode()).hexdigest()
     return {"violations": viol[:3], "digest": dg, "fingerprint": fp, "nontrivial": len(probes) >= 2, "events": R.events, "sim_s": 0.0,
             "faults": {}, "probes": probes}
+
+
+# ------------------------------------------------------------------------------------------
+# profile "handle": GeneralSFTPFile (open for read+write on an existing file) over a real client on
+# a simulated grid.  The background download is the real downloader (immutable) / Retrieve (mutable)
+# whose segments arrive when the simulated network delivers them; the client's writeChunk / setAttrs /
+# readChunk calls are issued at drawn simulated instants, so they race with the download; close()
+# commits through the real dirnode / mutable node.  Reference: original bytes with the client's
+# operations applied in call order (the handle queues them FIFO).
+# ------------------------------------------------------------------------------------------
+def gen_handle(seed, tier):
+    ch = Chooser(seed)
+    W = "workload"
+    kind = ch.pick("config", "kind", ["chk", "chk", "sdmf", "mdmf"])
+    k = ch.pick("config", "k", [1, 1, 2])
+    seg = ch.pick("config", "seg", [16 * k, 50 * k, 256, 4096])
+    size = ch.pick("config", "size", [56, 100, 3 * seg + 1, 5 * seg, 8 * seg - 3, 1000])
+    ops = []
+    for i in range(ch.randint(W, "nops", 1, 12)):
+        kd = ch.weighted(W, ("k", i), [("write", 6), ("read", 4), ("setsize", 1.5)])
+        at = ch.pick(W, ("at", i), [0.0, 0.0, 0.0003, 0.001, 0.002, 0.004, 0.01, 0.05, 0.5])
+        if kd == "write":
+            ops.append(["write", at, ch.pick(W, ("off", i), [0, 1, seg - 1, seg, 2 * seg + 3, size // 2, max(0, size - 1), size, size + 5, ch.randrange(W, ("offr", i), size + 10)]),
+                        ch.pick(W, ("len", i), [1, 2, 7, seg, seg + 1, 3 * seg]), ch.randint(W, ("pat", i), 1, 1 << 30)])
+        elif kd == "read":
+            ops.append(["read", at, ch.randrange(W, ("roff", i), size + 20), ch.pick(W, ("rlen", i), [1, 10, seg, 2 * seg + 1, 5000])])
+        else:
+            ops.append(["setsize", at, ch.pick(W, ("ns", i), [0, 1, size // 2, max(0, size - 1), size + 1, size + 50, ch.randrange(W, ("nsr", i), size + 100)])])
+    return {"engine": "sftpsim", "profile": "handle", "seed": seed,
+            "cfg": {"kind": kind, "k": k, "n": ch.pick("config", "n", [2, 3]), "seg": seg, "size": size, "datapat": ch.randint("config", "pat", 1, 1 << 30),
+                    "nservers": ch.randint("config", "ns", 2, 4), "append": ch.chance("config", "append", 0.1),
+                    "knobs": {"mseg": seg},
+                    "net": {"threads": ch.pick("config", "threads", ["sync", "async"]), "lat_profile": ch.pick("config", "lat", ["uniform", "heavy", "fifo"]),
+                            "jitter": ch.pick("config", "jit", [0.0005, 0.005, 0.05]), "base_lat": 0.001}},
+            "ops": ops}
+
+
+def exec_handle(case):
+    import tempfile
+    from sim.runner import child_tmp
+    from sim.reactor import EventCap
+    from engines import gridsim, mutsim, immsim
+    from engines.gridsim import Grid, run, settle
+    from allmydata.immutable.upload import Data
+    from allmydata.mutable.publish import MutableData
+    from allmydata.interfaces import SDMF_VERSION, MDMF_VERSION
+    from twisted.python.failure import Failure
+    cfg = case["cfg"]
+    base = tempfile.mkdtemp(dir=child_tmp())
+    R.reset_sim()
+    mutsim.apply_knobs(cfg["knobs"])
+    immsim.apply_knobs({})
+    viol, probes = [], {}
+
+    def probe(nm):
+        probes[nm] = probes.get(nm, 0) + 1
+
+    def bad(clause, detail):
+        viol.append({"clause": "C39." + clause, "sig": "C39." + clause, "detail": detail})
+
+    def result():
+        fp = hashlib.sha256(repr((cfg["kind"], sorted(probes.items()))).encode()).hexdigest()[:16]
+        return {"violations": viol[:3], "digest": R.digest(), "fingerprint": fp, "nontrivial": len(probes) >= 3, "events": R.events,
+                "sim_s": R.true_seconds() - gridsim.EPOCH, "faults": {}, "probes": probes}
+
+    g = Grid(case["seed"], base, cfg["net"])
+    try:
+        for i in range(cfg["nservers"]):
+            g.add_server()
+        c = g.add_client(k=cfg["k"], happy=1, n=cfg["n"], segsize=cfg["seg"])
+        original = pat_bytes(cfg["datapat"], cfg["size"])
+        st, parent = run(c.create_dirnode())
+        if st != "ok":
+            return result()
+        if cfg["kind"] == "chk":
+            st, fnode = run(parent.add_file(u"f", Data(original, convergence=b"")))
+        else:
+            ver = MDMF_VERSION if cfg["kind"] == "mdmf" else SDMF_VERSION
+            st, fnode = run(c.create_mutable_file(MutableData(original), version=ver))
+            if st == "ok":
+                st, _ = run(parent.set_node(u"f", fnode))
+        if st != "ok":
+            return result()
+        settle(400_000)
+        st, (filenode, md) = run(parent.get_child_and_metadata(u"f"))
+        flags = sftpd.FXF_READ | sftpd.FXF_WRITE | (sftpd.FXF_APPEND if cfg.get("append") else 0)
+        h = sftpd.GeneralSFTPFile(b"/f", flags, None, b"")
+        h.open(parent=parent, childname=u"f", filenode=filenode, metadata=md)
+        model = bytearray(original)
+        pending = []     # (op, box, expectation)
+        wrote = [False]
+
+        def issue(op):
+            k_ = op[0]
+            box = {}
+            if k_ == "write":
+                _, at, off, ln, pat = op
+                data = pat_bytes(pat, ln)
+                woff = len(model) if cfg.get("append") else off
+                d = h.writeChunk(off, data)
+                if woff > len(model):
+                    model.extend(b"\x00" * (woff - len(model)))
+                model[woff:woff + ln] = data
+                wrote[0] = True
+                exp = None
+                probe("write")
+            elif k_ == "setsize":
+                _, at, ns = op
+                d = h.setAttrs({"size": ns})
+                if ns < len(model):
+                    del model[ns:]
+                    probe("truncate")
+                else:
+                    model.extend(b"\x00" * (ns - len(model)))
+                    probe("extend")
+                exp = None
+            else:
+                _, at, off, ln = op
+                d = h.readChunk(off, ln)
+                exp = ("eof",) if off >= len(model) else ("bytes", bytes(model[off:off + ln]))
+                probe("read")
+            d.addCallbacks(lambda r, box=box: box.setdefault("r", ("ok", r)), lambda f, box=box: box.setdefault("r", ("err", f)))
+            pending.append((op, box, exp))
+
+        # the handle queues requests in call order: issue them in list order at non-decreasing instants
+        t_acc = 0.0
+        issue_at = []
+        for op in case["ops"]:
+            t_acc = max(t_acc, op[1])
+            issue_at.append((t_acc, op))
+        t0 = R.true_seconds()
+
+        def reads_outstanding():
+            return [1 for (op_, box_, exp_) in pending if op_[0] == "read" and "r" not in box_]
+        for (t_, op) in issue_at:
+            try:
+                if t0 + t_ > R.true_seconds():
+                    R.run_until(None, 400_000, until_time=t0 + t_)
+                if op[0] != "read" and reads_outstanding():
+                    # OverwriteableFileConsumer.read: "the caller must perform no more overwrites until the Deferred has
+                    # fired" -- a client that wants ordered semantics waits for its reads before it writes or truncates
+                    # (several reads may be outstanding together)
+                    R.run_until(lambda: not reads_outstanding(), 400_000)
+                    probe("waited-for-reads-before-write")
+            except EventCap:
+                bad("livelock", "the handle never quiesces")
+                return result()
+            if op[0] != "read" and reads_outstanding():
+                bad("request-hung", "a read never completed (queue drained) before %r" % (op,))
+                return result()
+            issue(op)
+        try:
+            R.run_until(lambda: not reads_outstanding(), 400_000)
+        except EventCap:
+            bad("livelock", "the handle never quiesces")
+            return result()
+        closebox = {}
+        dcl = h.close()
+        dcl.addCallbacks(lambda r: closebox.setdefault("r", ("ok", r)), lambda f: closebox.setdefault("r", ("err", f)))
+        try:
+            settle(600_000)
+        except EventCap:
+            bad("livelock", "the handle never quiesces")
+            return result()
+        for (op, box, exp) in pending:
+            if "r" not in box:
+                bad("request-hung", "%r never completed (queue drained)" % (op,))
+                break
+            stt, res = box["r"]
+            if op[0] != "read":
+                if stt != "ok":
+                    bad("request-failed", "%r failed: %s" % (op, res.getErrorMessage()[:200]))
+                continue
+            if exp[0] == "eof":
+                probe("read-eof")
+                if stt == "ok" and res != b"":
+                    bad("read-past-eof", "readChunk at offset %d >= size returned %d bytes" % (op[2], len(res)))
+            elif stt != "ok":
+                bad("read-failed", "%r failed: %s" % (op, res.getErrorMessage()[:200]))
+            elif res != exp[1]:
+                bad("read-bytes", "readChunk(%d,%d) returned bytes that differ from original-plus-client-writes at relative offset %d (%s file, %d bytes, segment %d; ops %r)" % (
+                    op[2], op[3], immsim.first_diff(res, exp[1]), cfg["kind"], cfg["size"], cfg["seg"], case["ops"]))
+        if "r" not in closebox:
+            bad("close-hung", "close() never completed")
+        elif closebox["r"][0] != "ok":
+            bad("close-failed", "close() failed: %s" % closebox["r"][1].getErrorMessage()[:300])
+        elif wrote[0] and not viol:
+            # what was committed to the grid, read back through a fresh client
+            rd = g.add_client(k=cfg["k"], happy=1, n=cfg["n"])
+            st, child = run(rd.create_node_from_uri(parent.get_uri()).get(u"f"), 400_000)
+            if st == "ok":
+                if child.is_mutable():
+                    st, got = run(child.download_best_version(), 400_000)
+                else:
+                    from allmydata.util.consumer import download_to_data
+                    st, got = run(download_to_data(child), 400_000)
+            if st != "ok":
+                bad("final-read-failed", "reading the committed file back failed")
+            elif got != bytes(model):
+                bad("final-contents", "the committed file (%d bytes) differs from original-plus-client-writes (%d bytes) at offset %d (%s, segment %d; ops %r)" % (
+                    len(got), len(model), immsim.first_diff(got, bytes(model)), cfg["kind"], cfg["seg"], case["ops"]))
+            probe("committed-compared")
+        return result()
+    finally:
+        g.close()
